@@ -4,379 +4,10 @@
 //   zipf_harness --gen --profile C06|C18|C19 --seed S --start I --count N --out DIR [--big]
 #include <rapidcheck.h>
 
-#include <atomic>
-#include <cfloat>
-#include <cinttypes>
-#include <cmath>
-#include <limits>
-#include <random>
-#include <thread>
-
-#include "dbgroup/random/zipf.hpp"
-#include "worker_common.hpp"
-
-using dbgroup::random::ApproxZipfDistribution;
-using dbgroup::random::ZipfDistribution;
+#include "zipf_checks.hpp"
 
 namespace
 {
-// scripted 64-bit engine: hands out the listed words, then repeats the last one
-struct Eng {
-  using result_type = uint64_t;
-  const std::vector<uint64_t> *w;
-  size_t pos = 0;
-  static constexpr uint64_t min() { return 0; }
-  static constexpr uint64_t max() { return ~0ULL; }
-  uint64_t
-  operator()()
-  {
-    const uint64_t v = (*w)[pos < w->size() ? pos : w->size() - 1];
-    pos++;
-    return v;
-  }
-};
-
-enum UKind : int { kAtBreak = 0, kBelowBreak = 1, kAboveBreak = 2, kZero = 3, kMaxBelowOne = 4, kArbitrary = 5 };
-
-struct Probe {
-  int ukind = kArbitrary;
-  uint64_t k = 0;      // target bin for the breakpoint kinds
-  uint64_t word = 0;   // engine word for kArbitrary (and the resolved word in replay files)
-};
-
-struct ZCase {
-  std::string prop = "C06";
-  int cls = 0;          // 0 exact, 1 approx
-  int type = 0;         // 0 u32, 1 u64, 2 i32, 3 i64
-  int64_t min_s = 0;    // min for signed types
-  uint64_t min_u = 0;   // min for unsigned types
-  uint64_t n = 1;       // bins
-  double alpha = 0.0;
-  std::vector<Probe> probes;
-  bool resolved = false;  // probes carry explicit words (replay)
-  int threads = 0;        // C19: concurrent samplers
-  uint64_t engseed = 1;   // C19: mt19937_64 seed
-  int seqlen = 16;        // C19
-};
-
-std::string
-to_text(const ZCase &c)
-{
-  std::ostringstream o;
-  char buf[64];
-  o << "family zipf\nprop " << c.prop << "\nclass " << (c.cls ? "approx" : "exact") << "\ntype " << (c.type == 0 ? "u32" : c.type == 1 ? "u64" : c.type == 2 ? "i32" : "i64")
-    << "\nmin_s " << c.min_s << "\nmin_u " << c.min_u << "\nn " << c.n << "\n";
-  snprintf(buf, sizeof buf, "%a", c.alpha);
-  o << "alpha " << buf << "   # " << c.alpha << "\n";
-  o << "threads " << c.threads << "\nengseed " << c.engseed << "\nseqlen " << c.seqlen << "\n";
-  for (auto &p : c.probes) o << "probe " << p.ukind << " " << p.k << " " << p.word << (c.resolved ? " resolved" : "") << "\n";
-  return o.str();
-}
-
-bool
-from_text(const std::string &t, ZCase &c)
-{
-  std::istringstream in(t);
-  std::string line;
-  while (std::getline(in, line)) {
-    if (line.empty() || line[0] == '#') continue;
-    std::istringstream ls(line);
-    std::string w;
-    ls >> w;
-    if (w == "prop") ls >> c.prop;
-    else if (w == "class") { std::string v; ls >> v; c.cls = v == "approx"; }
-    else if (w == "type") { std::string v; ls >> v; c.type = v == "u32" ? 0 : v == "u64" ? 1 : v == "i32" ? 2 : 3; }
-    else if (w == "min_s") ls >> c.min_s;
-    else if (w == "min_u") ls >> c.min_u;
-    else if (w == "n") ls >> c.n;
-    else if (w == "alpha") { std::string v; ls >> v; c.alpha = strtod(v.c_str(), nullptr); }
-    else if (w == "threads") ls >> c.threads;
-    else if (w == "engseed") ls >> c.engseed;
-    else if (w == "seqlen") ls >> c.seqlen;
-    else if (w == "probe") { Probe p; std::string r; ls >> p.ukind >> p.k >> p.word >> r; if (r == "resolved") c.resolved = true; c.probes.push_back(p); }
-  }
-  return true;
-}
-
-struct Verdict {
-  std::vector<std::pair<std::string, std::string>> reports;  // kind, message
-  bool nontrivial = false;
-  std::vector<std::string> labels;
-  double max_err_ratio = 0;  // C18: largest observed error / tolerance
-  void fail(const std::string &k, const std::string &m) { if (reports.size() < 8) reports.emplace_back(k, m); }
-};
-
-template <class T> struct Lim { static constexpr long double lo = static_cast<long double>(std::numeric_limits<T>::min()); static constexpr long double hi = static_cast<long double>(std::numeric_limits<T>::max()); };
-
-// word w such that the variate drawn by uniform_real_distribution<double>{0,1} from Eng is (close to) u
-uint64_t
-word_for(double u)
-{
-  if (!(u > 0.0)) return 0;
-  if (u >= 1.0) return ~0ULL;
-  const long double x = static_cast<long double>(u) * 18446744073709551616.0L;
-  if (x >= 18446744073709551615.0L) return ~0ULL;
-  return static_cast<uint64_t>(x);
-}
-
-double
-variate_of(const std::vector<uint64_t> &w)
-{
-  Eng e{&w};
-  std::uniform_real_distribution<double> d{0.0, 1.0};
-  return d(e);
-}
-
-template <class T, template <class> class Z>
-void
-check_c06(ZCase &c, Verdict &v)
-{
-  const T mn = std::is_signed_v<T> ? static_cast<T>(c.min_s) : static_cast<T>(c.min_u);
-  const T mx = static_cast<T>(mn + static_cast<T>(c.n - 1));
-  const Z<T> z{mn, mx, c.alpha};
-  const Z<T> dflt{};
-  for (auto &p : c.probes) {
-    if (!c.resolved) {
-      const uint64_t k = p.k % c.n;
-      double u = 0;
-      switch (p.ukind) {
-        case kAtBreak: u = z.GetCDF(static_cast<T>(k)); break;
-        case kBelowBreak: u = std::nextafter(z.GetCDF(static_cast<T>(k)), 0.0); break;
-        case kAboveBreak: u = std::nextafter(z.GetCDF(static_cast<T>(k)), 2.0); break;
-        case kZero: u = 0.0; break;
-        case kMaxBelowOne: u = std::nextafter(1.0, 0.0); break;
-        default: u = -1; break;
-      }
-      if (p.ukind != kArbitrary) p.word = word_for(u);
-    }
-    std::vector<uint64_t> words{p.word};
-    const double u = variate_of(words);
-    Eng e{&words};
-    const T r = z(e);
-    char b[400];
-    if (r < mn || r > mx) {
-      snprintf(b, sizeof b, "result %" PRId64 " outside [min, max] (n=%" PRIu64 ", alpha=%.17g, u=%.17g)", static_cast<int64_t>(r), c.n, c.alpha, u);
-      v.fail("ZIPF-RANGE", b);
-      continue;
-    }
-    const uint64_t bin = static_cast<uint64_t>(r - mn);
-    const double hi = z.GetCDF(static_cast<T>(bin));
-    const double lo = bin == 0 ? -1.0 : z.GetCDF(static_cast<T>(bin - 1));
-    if (!(u <= hi) || !(lo <= u)) {
-      snprintf(b, sizeof b, "%s n=%" PRIu64 " alpha=%.17g: u=%.17g mapped to bin %" PRIu64 " but GetCDF(bin-1)=%.17g GetCDF(bin)=%.17g", c.cls ? "approx" : "exact", c.n, c.alpha, u, bin, lo, hi);
-      v.fail(c.cls && c.n > 100 && bin >= 98 && bin <= 101 ? "ZIPF-INVCDF-SEAM" : "ZIPF-INVCDF", b);
-    }
-    // non-trivial: u within 1 ulp of a breakpoint, or first/last bin
-    if (bin == 0 || bin == c.n - 1 || std::nextafter(u, 2.0) >= hi || (bin > 0 && std::nextafter(u, 0.0) <= lo)) v.nontrivial = true;
-    // default-constructed generators always return 0
-    Eng e2{&words};
-    if (dflt(e2) != 0) v.fail("ZIPF-DEFAULT", "a default-constructed generator returned a non-zero value");
-  }
-  v.labels.push_back(c.n <= 100 ? "n<=100" : c.n <= 1000 ? "n<=1000" : "n>1000");
-}
-
-long double
-ref_term(uint64_t i, double alpha)
-{
-  return powl(static_cast<long double>(i), -static_cast<long double>(alpha));
-}
-
-template <class T>
-void
-check_c18(ZCase &c, Verdict &v)
-{
-  const T mn = std::is_signed_v<T> ? static_cast<T>(c.min_s) : static_cast<T>(c.min_u);
-  const T mx = static_cast<T>(mn + static_cast<T>(c.n - 1));
-  const uint64_t n = c.n;
-  // independent reference: Kahan-summed partial sums in long double
-  std::vector<long double> ref(n);
-  long double sum = 0, comp = 0;
-  for (uint64_t i = 1; i <= n; i++) {
-    const long double y = ref_term(i, c.alpha) - comp;
-    const long double t = sum + y;
-    comp = (t - sum) - y;
-    sum = t;
-    ref[i - 1] = sum;
-  }
-  const long double total = sum;
-  char b[400];
-  if (c.cls == 0) {
-    const ZipfDistribution<T> z{mn, mx, c.alpha};
-    const double tol = 4.0 * static_cast<double>(n) * 0x1p-53 + 1e-15;
-    double prev = 0;
-    for (uint64_t k = 0; k < n; k++) {
-      const double got = z.GetCDF(static_cast<T>(k));
-      const double want = static_cast<double>(ref[k] / total);
-      const double err = std::fabs(got - want);
-      v.max_err_ratio = std::max(v.max_err_ratio, err / tol);
-      if (err > tol) {
-        snprintf(b, sizeof b, "exact n=%" PRIu64 " alpha=%.17g: GetCDF(%" PRIu64 ")=%.17g but the normalised partial sum is %.17g (|diff| %.3g > %.3g)", n, c.alpha, k, got, want, err, tol);
-        v.fail("ZIPF-CDF-VALUE", b);
-        break;
-      }
-      if (got < prev && !(k == n - 1 && prev - got <= tol)) {
-        snprintf(b, sizeof b, "exact n=%" PRIu64 " alpha=%.17g: GetCDF decreases at bin %" PRIu64 " (%.17g -> %.17g)", n, c.alpha, k, prev, got);
-        v.fail("ZIPF-CDF-MONOTONE", b);
-        break;
-      }
-      prev = got;
-    }
-    if (z.GetCDF(static_cast<T>(n - 1)) != 1.0) v.fail("ZIPF-CDF-LAST", "exact: GetCDF(last bin) is not exactly 1");
-    v.nontrivial = n >= 2;
-  } else {
-    const ApproxZipfDistribution<T> a{mn, mx, c.alpha};
-    if (a.GetCDF(static_cast<T>(n - 1)) != 1.0) {
-      snprintf(b, sizeof b, "approx n=%" PRIu64 " alpha=%.17g: GetCDF(last bin)=%.17g is not exactly 1", n, c.alpha, a.GetCDF(static_cast<T>(n - 1)));
-      v.fail("ZIPF-CDF-LAST", b);
-    }
-    if (n <= 100) {
-      const ZipfDistribution<T> z{mn, mx, c.alpha};
-      for (uint64_t k = 0; k < n; k++) {
-        if (a.GetCDF(static_cast<T>(k)) != z.GetCDF(static_cast<T>(k))) {
-          snprintf(b, sizeof b, "approx n=%" PRIu64 " alpha=%.17g: GetCDF(%" PRIu64 ")=%.17g differs from the exact class %.17g", n, c.alpha, k, a.GetCDF(static_cast<T>(k)), z.GetCDF(static_cast<T>(k)));
-          v.fail("ZIPF-APPROX-EXACT", b);
-          break;
-        }
-      }
-      v.nontrivial = n >= 2;
-    } else if (n >= 1000 && c.alpha >= 0.0 && c.alpha <= 3.0) {
-      double worst = 0;
-      uint64_t wk = 0;
-      for (uint64_t k = 0; k < n; k++) {
-        const double got = a.GetCDF(static_cast<T>(k));
-        const double want = static_cast<double>(ref[k] / total);
-        const double err = std::fabs(got - want);
-        if (err > worst || !(err == err)) {
-          worst = (err == err) ? err : 1e9;
-          wk = k;
-        }
-      }
-      v.max_err_ratio = std::max(v.max_err_ratio, worst / 0.01);
-      if (worst > 0.01) {
-        const bool near1 = std::fabs(1.0 - c.alpha) < 0x1p-40 && c.alpha != 1.0;
-        const bool tail = (n - 100) % 100 != 0;
-        snprintf(b, sizeof b, "approx n=%" PRIu64 " alpha=%.17g: |GetCDF(%" PRIu64 ") - exact| = %.4g > 0.01", n, c.alpha, wk, worst);
-        v.fail(near1 ? "ZIPF-APPROX-CLOSE-NEAR1" : tail ? "ZIPF-APPROX-CLOSE-TAIL" : "ZIPF-APPROX-CLOSE", b);
-      }
-      v.nontrivial = true;
-    } else {
-      v.labels.push_back("approx_outside_closeness_domain");
-      v.nontrivial = n >= 2;
-    }
-  }
-  v.labels.push_back((n - 100) % 100 == 0 ? "n=100+100m" : "n!=100+100m");
-}
-
-template <class T, template <class> class Z>
-void
-check_c19(ZCase &c, Verdict &v)
-{
-  const T mn = std::is_signed_v<T> ? static_cast<T>(c.min_s) : static_cast<T>(c.min_u);
-  const T mx = static_cast<T>(mn + static_cast<T>(c.n - 1));
-  auto seq = [&](const Z<T> &z, uint64_t seed) {
-    std::mt19937_64 e{seed};
-    std::vector<T> out;
-    for (int i = 0; i < c.seqlen; i++) out.push_back(z(e));
-    return out;
-  };
-  const Z<T> z{mn, mx, c.alpha};
-  const auto base = seq(z, c.engseed);
-  const Z<T> twin{mn, mx, c.alpha};
-  if (seq(twin, c.engseed) != base) v.fail("ZIPF-PURE", "two generators with equal parameters disagree on the same engine state");
-  if (seq(z, c.engseed) != base) v.fail("ZIPF-PURE", "sampling changed the generator: a second run from the same engine state differs");
-  Z<T> copy{z};
-  if (seq(copy, c.engseed) != base) v.fail("ZIPF-PURE", "a copy disagrees with the original");
-  Z<T> assigned{};
-  assigned = z;
-  if (seq(assigned, c.engseed) != base) v.fail("ZIPF-PURE", "a copy-assigned generator disagrees with the original");
-  Z<T> src{mn, mx, c.alpha};
-  (void)seq(src, c.engseed + 1);  // sample before moving
-  Z<T> moved{std::move(src)};
-  if (seq(moved, c.engseed) != base) v.fail("ZIPF-PURE", "a move-constructed generator disagrees with the original");
-  Z<T> massigned{};
-  massigned = std::move(moved);
-  if (seq(massigned, c.engseed) != base) v.fail("ZIPF-PURE", "a move-assigned generator disagrees with the original");
-  // scripted engine as well
-  {
-    std::vector<uint64_t> words;
-    std::mt19937_64 g{c.engseed ^ 0x5bd1e995};
-    for (int i = 0; i < c.seqlen; i++) words.push_back(g());
-    Eng e1{&words}, e2{&words};
-    for (int i = 0; i < c.seqlen; i++) {
-      if (z(e1) != copy(e2)) {
-        v.fail("ZIPF-PURE", "original and copy disagree on a scripted engine");
-        break;
-      }
-    }
-  }
-  // one const generator shared by several threads, each with a private engine
-  if (c.threads >= 2) {
-    std::vector<std::vector<T>> got(c.threads);
-    std::vector<std::thread> th;
-    std::atomic<int> go{0};
-    for (int t = 0; t < c.threads; t++) {
-      th.emplace_back([&, t] {
-        go.fetch_add(1);
-        while (go.load() < c.threads) {
-        }
-        got[t] = seq(z, c.engseed + 1000 + t);
-      });
-    }
-    for (auto &t : th) t.join();
-    for (int t = 0; t < c.threads; t++) {
-      if (got[t] != seq(z, c.engseed + 1000 + t)) v.fail("ZIPF-SHARED", "a thread sampling a shared const generator got a different sequence than it gets alone");
-    }
-    v.labels.push_back("shared_by_threads");
-  }
-  size_t distinct = 0;
-  {
-    auto s = base;
-    std::sort(s.begin(), s.end());
-    distinct = std::unique(s.begin(), s.end()) - s.begin();
-  }
-  v.nontrivial = c.seqlen >= 16 && distinct >= 2;
-  // max < min must be rejected by an exception (both classes, this type)
-  if (c.n >= 2) {
-    bool thrown = false;
-    try {
-      const Z<T> bad{mx, mn, c.alpha};
-      (void)bad;
-    } catch (const std::exception &) {
-      thrown = true;
-    }
-    if (!thrown) v.fail("ZIPF-REJECT", "construction with max < min did not throw");
-  }
-}
-
-template <class T>
-void
-dispatch_t(ZCase &c, Verdict &v)
-{
-  if (c.prop == "C06") {
-    if (c.cls) check_c06<T, ApproxZipfDistribution>(c, v); else check_c06<T, ZipfDistribution>(c, v);
-  } else if (c.prop == "C18") {
-    check_c18<T>(c, v);
-  } else {
-    if (c.cls) check_c19<T, ApproxZipfDistribution>(c, v); else check_c19<T, ZipfDistribution>(c, v);
-  }
-}
-
-void
-run_case(ZCase &c, Verdict &v)
-{
-  v.labels.push_back(std::string("class=") + (c.cls ? "approx" : "exact"));
-  v.labels.push_back(std::string("type=") + (c.type == 0 ? "u32" : c.type == 1 ? "u64" : c.type == 2 ? "i32" : "i64"));
-  if (c.alpha == 0) v.labels.push_back("alpha=0");
-  else if (c.alpha > 3) v.labels.push_back("alpha>3");
-  else if (std::fabs(c.alpha - 1) < 1e-3) v.labels.push_back("alpha~1");
-  switch (c.type) {
-    case 0: dispatch_t<uint32_t>(c, v); break;
-    case 1: dispatch_t<uint64_t>(c, v); break;
-    case 2: dispatch_t<int32_t>(c, v); break;
-    default: dispatch_t<int64_t>(c, v); break;
-  }
-}
-
 /*------------------------------------------------------------------------------ generators */
 int pick(int lo, int hi) { return hi <= lo ? lo : *rc::gen::inRange(lo, hi + 1); }
 uint64_t pick64(uint64_t lo, uint64_t hi) { return hi <= lo ? lo : *rc::gen::inRange<uint64_t>(lo, hi + 1); }
